@@ -195,6 +195,14 @@ func loadPackage(pkgDir string, ov *overlaySet) (*Loaded, error) {
 		return nil, fmt.Errorf("no target package for %s", pkgDir)
 	}
 	target.Build()
+	// fmt is built eagerly: built lazily (first fmt.Errorf reached while exploring http2's server code) x/tools'
+	// builder failed its own sanity check on a generic instance ("(http2.writeWindowUpdate).isNaN[int] has 2
+	// parameters in signature but 1 after building"); building it before any exploration avoids that.
+	for _, p := range prog.AllPackages() {
+		if p.Pkg.Path() == "fmt" {
+			p.Build()
+		}
+	}
 	ld := &Loaded{prog: prog, pkg: target, loadSecs: loadSecs, ssaSecs: time.Since(t1).Seconds(), npkgs: len(prog.AllPackages())}
 	cmd := exec.Command("go", "version")
 	cmd.Dir = gRepo
